@@ -118,6 +118,8 @@ func (cr *CheckRun) PrepareEmitted(bin string, ce CorpusEntry, expectGenError bo
 			job.SF = sf
 		}
 	}
+	InstallResponderContracts(em)
+	InstallEnvContracts(em)
 	cr.mu.Lock()
 	cr.Programs = append(cr.Programs, ce.Name)
 	cr.mu.Unlock()
@@ -301,4 +303,21 @@ func (cr *CheckRun) triageBounded(f *Failure) {
 	}
 	f.Verdict = "violation"
 	cr.Failures = append(cr.Failures, f)
+}
+
+func serverSideSel(name string) bool {
+	if strings.Contains(name, "Client") || strings.HasPrefix(name, "init") {
+		return false
+	}
+	return true
+}
+
+// CheckEmittedSafety: C14 over the corpus.
+func (cr *CheckRun) CheckEmittedSafety(entries []CorpusEntry) {
+	bin, err := BuildGoag(cr.Repo, cr.Scratch)
+	if err != nil {
+		cr.EngineErrors = append(cr.EngineErrors, err.Error())
+		return
+	}
+	cr.RunEntries(bin, entries, false, serverSideSel, nil)
 }
